@@ -175,7 +175,29 @@ func main() {
 	verbose := flag.Bool("v", false, "print every obligation")
 	debug.SetGCPercent(600)
 	cpuprof := flag.String("cpuprofile", "", "write a CPU profile")
+	patchFile := flag.String("patch", "", "unified diff applied to the repository in memory before analysing (variants; never touches the tree)")
+	editFile := flag.String("edit-file", "", "with -edit-old/-edit-new: single-site in-memory edit of this file")
+	editOld := flag.String("edit-old", "", "")
+	editNew := flag.String("edit-new", "", "")
 	flag.Parse()
+	if *patchFile != "" {
+		b, err := os.ReadFile(*patchFile)
+		if err == nil {
+			runOverlay, err = applyUnifiedDiff(*repo, string(b))
+		}
+		if err != nil {
+			fmt.Println("MUTANT-SKIPPED:", err)
+			os.Exit(3)
+		}
+	}
+	if *editFile != "" {
+		var err error
+		runOverlay, err = applyEdit(*repo, *editFile, *editOld, *editNew)
+		if err != nil {
+			fmt.Println("MUTANT-SKIPPED:", err)
+			os.Exit(3)
+		}
+	}
 	if *cpuprof != "" {
 		f, _ := os.Create(*cpuprof)
 		pprof.StartCPUProfile(f)
@@ -219,6 +241,9 @@ func main() {
 	}
 	start := time.Now()
 	res := runProp(*prop, f, *repo, *tier)
+	if *tier == "thorough" && !*noEvidence && runOverlay == nil && len(res.Fatal) == 0 {
+		runThoroughMutants(res, *prop, *repo, *verif)
+	}
 	code := finish(res, *prop, *tier, seed, *verif, start, *noEvidence, *verbose)
 	if *cpuprof != "" {
 		pprof.StopCPUProfile()
@@ -228,6 +253,9 @@ func main() {
 
 var explainKeys map[string]bool
 
+// runOverlay: in-memory file replacements for variant runs (nil for the real tree).
+var runOverlay map[string][]byte
+
 func runProp(prop string, f ruleFunc, repo, tier string) (res *Result) {
 	res = newResult(prop)
 	res.Level = ruleLevel[prop]
@@ -236,7 +264,7 @@ func runProp(prop string, f ruleFunc, repo, tier string) (res *Result) {
 			res.fatal("analyser panic: %v\n%s", e, debug.Stack())
 		}
 	}()
-	P, err := loadProgram(LoadOpts{Repo: repo, Deep: false})
+	P, err := loadProgram(LoadOpts{Repo: repo, Deep: false, Overlay: runOverlay})
 	if err != nil {
 		res.fatal("load: %v", err)
 		return
